@@ -182,7 +182,7 @@ def run(index, rep, tier):
                                 t = n.targets[0] if isinstance(n, ast.Assign) else n.target
                                 if isinstance(t, ast.Attribute) and t.attr == "length" and ("length" in norm(n.value)):
                                     merges.append(n)
-                    rep.check(bool(merges), "R07.4", fi.qualname, "splice-out under `%s` without length merge" % norm(iff.test), fn_where(fi, iff),
+                    rep.check(bool(merges), "R07.4", fi.qualname, "splice-out of a node whose `%s` has one member, without length merge" % single, fn_where(fi, iff),
                               "%s: the single-child splice-out under `%s` merges edge lengths (%s)" % (fi.name, norm(iff.test), norm(merges[0])[:50] if merges else ""),
                               "%s splices out a node with a single child (under `%s`) and re-attaches the grandchildren without adding the removed node's edge length to theirs: total tree length and leaf-to-leaf path lengths change" % (fi.qualname, norm(iff.test)))
         rep.floor("R07.4", "single-child splice-out sites", 5, nsites)
